@@ -25,7 +25,7 @@ PROPS = {
     "C15": {"units": ["glue", "build"]},
     "C16": {"units": ["gz"], "kani": ["K4"]},
     "C17": {"units": ["build", "gz", "chunker"]},
-    "C19": {"units": ["path"]},
+    "C19": {"units": ["path"], "native_always": ["path"], "native_bound": "FsDir::get on every path of <= 4 segments over {a, sub, .., ., ..., ..a, a.., empty, secret} with optional leading/trailing slash, plus NUL injections (26 343 paths) against a directory tree with a secret outside the base"},
     "C20": {"units": ["streams", "chunker"]},
 }
 
@@ -70,7 +70,7 @@ META = {
          "assumed: meaning of core::str primitives (opaque Str)", ["Kani K4: parse_qvalue on ASCII strings of length <= 6 (bounded; grammatical qvalues have <= 5 bytes)"], []),
  "C17": ("proof", "streaming_body/with_*/build are proved: Vary always, Content-Encoding: gzip iff should_gzip && level > 0 iff the writer is the Gzipped variant with that level, for both AsRequest impls; chunk_size > 0 is a stated precondition (the real code panics otherwise).",
          "assumed: flate2 produces gzip data from a Gzipped writer (C09 is not claimed)", [], ["the bytes flate2 emits"]),
- "C19": ("proof", "path-validation clause only: validate_path is proved, for byte strings of any length, to refuse exactly the paths that are absolute, contain NUL or have a `..` segment.",
+ "C19": ("proof", "validate_path is proved, for byte strings of any length, to refuse exactly the paths that are absolute, contain NUL or have a `..` segment; Node::encoding / encoding_varies / add_encoding_headers are proved to report gzip exactly when the .gz sibling was substituted and Vary exactly when auto_gzip is on. FsDir::get itself (async, spawn_blocking, openat) is outside the verifier's reach: a bounded native check of it stands in (labelled bounded, not counted as proved).",
          "assumed: memchr returns the first index; the file-opening clauses (openat, .gz lookup, directories) are OS behaviour and not covered", ["native bounded stand-in for FsDir::get when validate_path cannot be analysed: paths of <= 4 segments"], ["which file openat opens; .gz substitution; encoding headers"]),
  "C20": ("proof", "terminal states are proved absorbing: ExactLenStream with remaining == 0 and a finished inner stream keeps returning None; MultipartStream is terminal (cur = None, state = end, remaining = 0) after any error or end and returns None from then on without indexing; Reader fuses after end/error; Once bodies take() their value.",
          "assumed: the entity's streams stay finished once finished or failed (as the property states)", [], []),
